@@ -2,6 +2,7 @@
 From Coq Require Import List Bool Arith ZArith QArith Qround String Lia Lqa.
 From GolemV Require Import Evo.Limits.
 Import ListNotations.
+Local Open Scope nat_scope.
 
 (* ------------------------------------------------------------------------------------- *)
 (* boolean comparisons on Q                                                               *)
@@ -107,15 +108,15 @@ Qed.
 (* ------------------------------------------------------------------------------------- *)
 Definition may_step (l : limits) (init t : Q) (k : kstate) : Prop :=
   opt_timer_reached (tmo l) init t (Some (Z.of_nat (gen_num k) - 1)%Z) = false /\
-  (forall n, nog l = Some n -> gen_num k <= n) /\
-  (forall m, max_stag_len l = Some m -> stag k < m) /\
+  (forall n, nog l = Some n -> (gen_num k <= n)%nat) /\
+  (forall m, max_stag_len l = Some m -> (stag k < m)%nat) /\
   (forall e, est l = Some e -> (stag_duration t (stag_start k) < e)%Q).
 
 Lemma stop_test_false : forall l init t1 t2 k,
   stop_test l init t1 t2 k = false ->
   opt_timer_reached (tmo l) init t1 (Some (Z.of_nat (gen_num k) - 1)%Z) = false /\
-  (forall n, nog l = Some n -> gen_num k <= n) /\
-  (forall m, max_stag_len l = Some m -> stag k < m) /\
+  (forall n, nog l = Some n -> (gen_num k <= n)%nat) /\
+  (forall m, max_stag_len l = Some m -> (stag k < m)%nat) /\
   (forall e, est l = Some e -> (stag_duration t2 (stag_start k) < e)%Q).
 Proof.
   intros l init t1 t2 k H. unfold stop_test in H.
@@ -182,8 +183,8 @@ Section LoopProofs.
     - inversion H; subst. lia.
     - apply stop_test_false in St. destruct St as [_ [G _]]. specialize (G n Hn).
       destruct (evolve (steps s) (ks s)) as [[imp d]|].
-      + apply (IH _ _ _ n Hn) in H. cbn in H. lia.
-      + inversion H; subst. cbn. lia.
+      + apply (IH _ _ _ n Hn) in H. cbn [ks steps now trace keeper_append gen_num] in H. lia.
+      + inversion H; subst. cbn [ks steps now trace]. lia.
   Qed.
 
   (* every step is in the trace, and the trace only grows *)
@@ -196,8 +197,8 @@ Section LoopProofs.
     destruct (stop_test l init (clock (now s)) (clock (now s)) (ks s)).
     - inversion H; subst. lia.
     - destruct (evolve (steps s) (ks s)) as [[imp d]|].
-      + apply IH in H. cbn in H. lia.
-      + inversion H; subst. cbn. lia.
+      + apply IH in H. cbn [ks steps now trace keeper_append gen_num List.length] in H. lia.
+      + inversion H; subst. cbn [ks steps now trace List.length]. lia.
   Qed.
 
   (* (2) a step is started only if the stop test just before it answered False *)
@@ -321,7 +322,7 @@ Section LoopProofs.
 
   Theorem rs_exact : forall fuel l t iter' t' n,
     nog l = Some n -> tmo l = None -> rs_loop' fuel l 0 t = Some (iter', t') -> iter' = n.
-  Proof. intros. eapply rs_exact_from; eauto. lia. Qed.
+  Proof. intros fuel l t iter' t' n Hn Ht H. exact (rs_exact_from fuel l 0 t iter' t' n Hn Ht (Nat.le_0_l n) H). Qed.
 
   Theorem rs_zero_budget : forall fuel l t0 t,
     tmo l = Some t -> ((t <= 0)%Q \/ ((t <= clock t0)%Q /\ (init <= clock t0)%Q)) ->
@@ -371,13 +372,16 @@ Proof.
   - apply Nat.leb_gt in E. apply Z.leb_gt. lia.
 Qed.
 
+Lemma py_or_nat : forall e n,
+  py_or (inj_nat e) (inj_nat n) = inj_nat (match e with Some (S k) => Some (S k) | _ => n end).
+Proof. intros [[|k]|] n; reflexivity. Qed.
+
 Lemma d_c_stag_ok : forall l s, d_c_stag (dyn_of l) s = Ok (c_stag l s).
 Proof.
-  intros [n e st tm] s. unfold d_c_stag, c_stag, max_stag_len, dyn_of, py_or. cbn.
-  destruct e as [[|e]|]; cbn.
-  - destruct n as [n|]; cbn; [rewrite Zleb_nat|]; reflexivity.
-  - rewrite <- Zleb_nat. reflexivity.
-  - destruct n as [n|]; cbn; [rewrite Zleb_nat|]; reflexivity.
+  intros l s. unfold d_c_stag, c_stag. unfold dyn_of at 1 2. cbn [d_esi d_nog].
+  rewrite py_or_nat. fold (max_stag_len l).
+  destruct (max_stag_len l) as [m|]; [|reflexivity].
+  unfold inj_nat, py_ge. rewrite Zleb_nat. reflexivity.
 Qed.
 
 Lemma d_c_stagtime_ok : forall l t s, d_c_stagtime_with (d_est (dyn_of l)) t s = Ok (c_stagtime l t s).
@@ -414,7 +418,7 @@ Proof.
   assert (H : (0 <= inject_Z p * rate)%Q).
   { apply Qmult_le_0_compat; [|exact Hr]. replace 0%Q with (inject_Z 0) by reflexivity. rewrite <- Zle_Qle. exact Hp. }
   pose proof (Qle_ceiling (inject_Z p * rate)) as C.
-  assert (L : (inject_Z 0 <= inject_Z (Qceiling (inject_Z p * rate)))%Q) by (cbn; lra).
+  assert (L : (inject_Z 0 <= inject_Z (Qceiling (inject_Z p * rate)))%Q) by (exact (Qle_trans _ _ _ H C)).
   rewrite <- Zle_Qle in L. exact L.
 Qed.
 
@@ -449,11 +453,11 @@ Theorem depth_next_bounds : forall adaptive max_depth max_stag cur stagn cur' d,
   cur <= cur' <= Z.max cur max_depth /\ d <= Z.max cur max_depth /\ (adaptive = true -> d = cur').
 Proof.
   intros adaptive max_depth max_stag cur stagn cur' d H. unfold depth_next in H.
-  destruct adaptive; cbn in H.
+  destruct adaptive; cbn [negb] in H.
   - destruct (Z.leb max_depth cur) eqn:E1.
-    + inversion H; subst. lia.
-    + apply Z.leb_gt in E1. destruct (Z.leb max_stag stagn); inversion H; subst; lia.
-  - inversion H; subst. repeat split; try lia. discriminate.
+    + inversion H; subst. repeat split; intros; try lia.
+    + apply Z.leb_gt in E1. destruct (Z.leb max_stag stagn); inversion H; subst; repeat split; intros; try lia.
+  - inversion H; subst. repeat split; intros; try lia.
 Qed.
 
 Theorem depth_run_bounded : forall adaptive max_depth max_stag stags cur d,
@@ -518,7 +522,10 @@ Proof.
 Qed.
 
 Lemma seq_index_below : forall value m, 0 <= m < seq_index value -> fibZ m < value.
-Proof. intros value m H. apply (seq_index_from_below _ 0 value); [intros; lia|exact H]. Qed.
+Proof.
+  intros value m H. unfold seq_index in H.
+  apply (seq_index_from_below (Z.to_nat value + 2) 0 value); [intros; lia|exact H].
+Qed.
 
 Lemma seq_index_from_ge : forall fuel n value, n <= seq_index_from fuel n value.
 Proof.
@@ -593,53 +600,131 @@ Proof. destruct v; cbn; try reflexivity; try apply Qeq_bool_refl. apply Nat.eqb_
 (* finite part: every limit key is routed to the object it is documented for and is not "timeout" *)
 Lemma limit_keys_routing :
   forallb (fun kd => dest_eqb (dest_of (fst kd)) (snd kd) && negb (String.eqb (fst kd) "timeout")
+                     && negb (String.eqb (fst kd) "n_jobs")
                      && negb (dest_eqb (snd kd) DCommon)) limit_keys = true.
 Proof. vm_compute. reflexivity. Qed.
 
 Lemma dest_eqb_eq : forall a b, dest_eqb a b = true -> a = b.
 Proof. destruct a, b; cbn; intro H; try reflexivity; discriminate. Qed.
 
-Theorem api_params_faithful : forall timeout n_jobs kwargs out k d v,
-  facade timeout n_jobs kwargs = Ok out ->
+Lemma facade_ok_inv : forall cpu timeout n_jobs kwargs out,
+  facade cpu timeout n_jobs kwargs = Ok out ->
+  exists nj tdv, determine_n_jobs cpu n_jobs = Ok nj /\ to_timedelta timeout = Ok tdv /\
+    let input := dict_set "n_jobs" (ANum (inject_Z nj)) (dict_set "timeout" tdv kwargs) in
+    to_gp out = select DGp input /\ to_gen out = select DGen input /\ to_req out = select DReq input /\
+    to_common out = select DCommon input.
+Proof.
+  intros cpu timeout n_jobs kwargs out F. unfold facade in F.
+  destruct (determine_n_jobs cpu n_jobs) as [nj|e]; [|discriminate].
+  destruct (to_timedelta timeout) as [tdv|e]; [|discriminate].
+  inversion F; subst out. exists nj, tdv. cbn. repeat split; reflexivity.
+Qed.
+
+Lemma lookup_in_select : forall out input d k,
+  to_gp out = select DGp input -> to_gen out = select DGen input -> to_req out = select DReq input ->
+  to_common out = select DCommon input ->
+  lookup_in d out k = if dest_eqb (dest_of k) d then lookup k input else None.
+Proof.
+  intros out input d k H1 H2 H3 H4. unfold lookup_in. destruct d; rewrite ?H1, ?H2, ?H3, ?H4; apply lookup_select.
+Qed.
+
+(* each limit given to the facade is found unchanged in the parameter object it is documented for
+   and in neither of the other two *)
+Theorem api_params_faithful : forall cpu timeout n_jobs kwargs out k d v,
+  facade cpu timeout n_jobs kwargs = Ok out ->
   In (k, d) limit_keys -> lookup k kwargs = Some v ->
   only_in d out k v = true.
 Proof.
-  intros timeout n_jobs kwargs out k d v F Hin Hl.
+  intros cpu timeout n_jobs kwargs out k d v F Hin Hl.
   pose proof limit_keys_routing as R. rewrite forallb_forall in R. specialize (R _ Hin). cbn [fst snd] in R.
-  apply andb_true_iff in R as [R Rc]. apply andb_true_iff in R as [Rd Rt].
-  apply negb_true_iff in Rt. apply dest_eqb_eq in Rd.
-  unfold facade in F. destruct (to_timedelta timeout) as [tdv|e]; [|discriminate]. inversion F; subst out. clear F.
-  unfold only_in, lookup_in. cbn [to_gp to_gen to_req to_common].
-  rewrite !lookup_select. rewrite (lookup_dict_set_other _ _ _ _ Rt). rewrite Hl. rewrite Rd.
+  apply andb_true_iff in R as [R Rc]. apply andb_true_iff in R as [R Rj]. apply andb_true_iff in R as [Rd Rt].
+  apply negb_true_iff in Rt. apply negb_true_iff in Rj. apply dest_eqb_eq in Rd.
+  destruct (facade_ok_inv _ _ _ _ _ F) as [nj [tdv [_ [_ [G1 [G2 [G3 G4]]]]]]].
+  unfold only_in. cbn [forallb]. rewrite !(lookup_in_select _ _ _ _ G1 G2 G3 G4).
+  rewrite (lookup_dict_set_other _ _ _ _ Rj), (lookup_dict_set_other _ _ _ _ Rt), Hl, Rd.
   destruct d; cbn in Rc |- *; try discriminate; rewrite aval_eqb_refl; reflexivity.
 Qed.
 
-Theorem api_timeout_faithful : forall timeout n_jobs kwargs out q,
-  facade timeout n_jobs kwargs = Ok out -> (timeout = ANum q \/ timeout = ADelta q) ->
-  only_in DReq out "timeout" (ADelta q) = true.
+(* the timeout arrives in the requirements as the same duration; None stays None *)
+Theorem api_timeout_faithful : forall cpu timeout n_jobs kwargs out,
+  facade cpu timeout n_jobs kwargs = Ok out ->
+  match timeout with
+  | ANum q => only_in DReq out "timeout" (ADelta q) = true
+  | ADelta q => only_in DReq out "timeout" (ADelta q) = true
+  | ANone => only_in DReq out "timeout" ANone = true
+  | AOpaque _ => False
+  end.
 Proof.
-  intros timeout n_jobs kwargs out q F H.
-  unfold facade in F. destruct H; subst timeout; cbn [to_timedelta] in F; inversion F; subst out; clear F;
-    unfold only_in, lookup_in; cbn [to_gp to_gen to_req to_common];
-    rewrite !lookup_select; rewrite lookup_dict_set_same;
-    replace (dest_of "timeout") with DReq by (vm_compute; reflexivity); cbn; rewrite Qeq_bool_refl; reflexivity.
+  intros cpu timeout n_jobs kwargs out F.
+  destruct (facade_ok_inv _ _ _ _ _ F) as [nj [tdv [_ [T [G1 [G2 [G3 G4]]]]]]].
+  assert (Ne : String.eqb "timeout" "n_jobs" = false) by reflexivity.
+  assert (D : dest_of "timeout" = DReq) by (vm_compute; reflexivity).
+  destruct timeout; cbn in T; inversion T; subst tdv;
+    unfold only_in; cbn [forallb]; rewrite !(lookup_in_select _ _ _ _ G1 G2 G3 G4);
+    rewrite (lookup_dict_set_other _ _ _ _ Ne), lookup_dict_set_same, D; cbn; rewrite ?Qeq_bool_refl; reflexivity.
 Qed.
 
-(* the worker count never reaches any of the three parameter objects (n_jobs is a named parameter of
-   the facade, so it cannot occur among the keyword arguments) *)
-Theorem api_n_jobs_dropped : forall timeout n_jobs kwargs out d,
-  facade timeout n_jobs kwargs = Ok out -> lookup "n_jobs" kwargs = None ->
-  lookup_in d out "n_jobs" = None.
+(* the worker count arrives in the requirements as determine_n_jobs(n_jobs) and nowhere else *)
+Theorem api_n_jobs_faithful : forall cpu timeout n_jobs kwargs out,
+  facade cpu timeout n_jobs kwargs = Ok out ->
+  exists nj, determine_n_jobs cpu n_jobs = Ok nj /\ only_in DReq out "n_jobs" (ANum (inject_Z nj)) = true.
 Proof.
-  intros timeout n_jobs kwargs out d F Hl.
-  unfold facade in F. destruct (to_timedelta timeout) as [tdv|e]; [|discriminate]. inversion F; subst out. clear F.
-  assert (Ne : String.eqb "n_jobs" "timeout" = false) by reflexivity.
-  destruct d; unfold lookup_in; cbn [to_gp to_gen to_req to_common]; rewrite lookup_select;
-    rewrite (lookup_dict_set_other _ _ _ _ Ne); rewrite Hl; destruct (dest_eqb _ _); reflexivity.
+  intros cpu timeout n_jobs kwargs out F.
+  destruct (facade_ok_inv _ _ _ _ _ F) as [nj [tdv [N [_ [G1 [G2 [G3 G4]]]]]]].
+  exists nj. split; [exact N|].
+  assert (D : dest_of "n_jobs" = DReq) by (vm_compute; reflexivity).
+  unfold only_in. cbn [forallb]. rewrite !(lookup_in_select _ _ _ _ G1 G2 G3 G4).
+  rewrite lookup_dict_set_same, D. cbn. rewrite Qeq_bool_refl. reflexivity.
 Qed.
 
-Theorem api_timeout_none_raises : forall n_jobs kwargs, facade ANone n_jobs kwargs = Raise TypeError.
-Proof. reflexivity. Qed.
+(* determine_n_jobs: k unchanged for 1 <= k <= cpu, -1 = all cpus, never an error on documented counts *)
+Theorem determine_n_jobs_spec : forall cpu n, (1 <= cpu)%Z ->
+  ((1 <= n <= cpu)%Z -> determine_n_jobs cpu n = Ok n) /\
+  ((- cpu <= n <= -1)%Z -> determine_n_jobs cpu n = Ok (cpu + 1 + n)%Z) /\
+  ((cpu < n)%Z -> determine_n_jobs cpu n = Ok cpu) /\
+  ((n = 0 \/ n < - cpu)%Z -> determine_n_jobs cpu n = Raise ValueError).
+Proof.
+  intros cpu n Hc. unfold determine_n_jobs. repeat split; intro H.
+  - destruct (Z.ltb cpu n) eqn:E1; [apply Z.ltb_lt in E1; lia|].
+    destruct (Z.leb n 0) eqn:E2; [apply Z.leb_le in E2; lia|reflexivity].
+  - destruct (Z.ltb cpu n) eqn:E1; [apply Z.ltb_lt in E1; lia|].
+    destruct (Z.leb n 0) eqn:E2; [|apply Z.leb_gt in E2; lia].
+    destruct (Z.leb n (- cpu - 1)) eqn:E3; [apply Z.leb_le in E3; lia|].
+    destruct (Z.eqb n 0) eqn:E4; [apply Z.eqb_eq in E4; lia|reflexivity].
+  - destruct (Z.ltb cpu n) eqn:E1; [reflexivity|apply Z.ltb_ge in E1; lia].
+  - destruct (Z.ltb cpu n) eqn:E1; [apply Z.ltb_lt in E1; lia|].
+    destruct (Z.leb n 0) eqn:E2; [|apply Z.leb_gt in E2; lia].
+    destruct H as [H|H].
+    + subst. rewrite orb_true_r. reflexivity.
+    + assert (E3 : Z.leb n (- cpu - 1) = true) by (apply Z.leb_le; lia). rewrite E3. reflexivity.
+Qed.
+
+(* the facade accepts every documented timeout / worker count, whatever the keyword arguments *)
+Theorem facade_accepts : forall cpu timeout n_jobs kwargs, (1 <= cpu)%Z ->
+  ((1 <= n_jobs <= cpu)%Z \/ (- cpu <= n_jobs <= -1)%Z \/ (cpu < n_jobs)%Z) ->
+  (forall x, timeout <> AOpaque x) ->
+  exists out, facade cpu timeout n_jobs kwargs = Ok out.
+Proof.
+  intros cpu timeout n_jobs kwargs Hc Hn Ht. unfold facade.
+  destruct (determine_n_jobs_spec cpu n_jobs Hc) as [S1 [S2 [S3 _]]].
+  destruct Hn as [H|[H|H]]; [rewrite (S1 H)|rewrite (S2 H)|rewrite (S3 H)];
+    (destruct timeout; cbn; try (eexists; reflexivity); exfalso; eapply Ht; reflexivity).
+Qed.
+
+(* before the repair 03e7a66: timeout = None raised and the worker count stayed on ApiParams *)
+Definition facade_pinned (timeout : aval) (kwargs : list (string * aval)) : res api_out :=
+  match timeout with
+  | ANone | AOpaque _ => Raise TypeError
+  | ANum q | ADelta q =>
+      let input := dict_set "timeout" (ADelta q) kwargs in
+      Ok {| to_gp := select DGp input; to_gen := select DGen input; to_req := select DReq input;
+            to_common := select DCommon input; dynamic_req := false; attr_n_jobs := ANone |}
+  end.
+
+Lemma facade_pinned_refuted :
+  facade_pinned ANone [] = Raise TypeError /\
+  exists out, facade_pinned (ANum 1) [] = Ok out /\ lookup_in DReq out "n_jobs" = None.
+Proof. split; [reflexivity|]. eexists. split; reflexivity. Qed.
 
 (* ------------------------------------------------------------------------------------- *)
 (* the model's own answers satisfy the unit-level clauses checked on the implementation   *)
@@ -681,4 +766,26 @@ Proof.
     + apply Z.leb_le. apply (const_rate_le_max _ _ _ _ _ E).
     + apply implb_true_iff. intro R. apply Qle_bool_iff in R. apply Z.leb_le. exact (G R).
   - apply implb_true_iff. intro R. apply Qle_bool_iff in R. apply Z.leb_le. exact (G R).
+Qed.
+
+(* the structural-diversity refill never lifts a population above max_pop_size *)
+Theorem diversity_refill_le_max : forall maxp m unique,
+  truthy_max maxp = Some m -> unique <= m -> diversity_refill maxp unique <= m.
+Proof.
+  intros maxp m unique E H. unfold diversity_refill, diversity_target. rewrite E.
+  destruct (Z.ltb unique (Z.min MIN_POP_SIZE m)); lia.
+Qed.
+
+Theorem diversity_refill_ge : forall maxp unique, unique <= diversity_refill maxp unique.
+Proof.
+  intros. unfold diversity_refill. destruct (Z.ltb unique (diversity_target maxp)) eqn:E; [apply Z.ltb_lt in E|]; lia.
+Qed.
+
+Lemma diversity_refill_pinned_refuted : exists m unique, unique <= m /\ m < diversity_refill_pinned unique.
+Proof. exists 3, 2. vm_compute. split; [discriminate|reflexivity]. Qed.
+
+Theorem model_diversity_holds : forall maxp unique, uholds (UDiversity maxp unique (diversity_refill maxp unique)) = true.
+Proof.
+  intros. cbn [uholds]. destruct (truthy_max maxp) as [m|] eqn:E; [|reflexivity].
+  apply implb_true_iff. intro H. apply Z.leb_le in H. apply Z.leb_le. apply (diversity_refill_le_max _ _ _ E H).
 Qed.
